@@ -550,7 +550,7 @@ class NestedMaskedTransformer(MaskedTransformer):
            that case, :attr:`else_body` is returned (which can be empty, too).
         """
         if o in self.mapper:
-            return super().visit(o, **kwargs)
+            return super().visit_Node(o, **kwargs)
 
         condition = self.visit(o.condition, **kwargs)
         body = as_tuple(flatten(as_tuple(self.visit(o.body, **kwargs))))
@@ -572,7 +572,7 @@ class NestedMaskedTransformer(MaskedTransformer):
            returned (which can be empty, too).
         """
         if o in self.mapper:
-            return super().visit(o, **kwargs)
+            return super().visit_Node(o, **kwargs)
 
         # need to make (value, body) pairs to track vanishing bodies
         expr = self.visit(o.expr, **kwargs)
